@@ -42,7 +42,7 @@ namespace vf { namespace fi {
 
 enum { BT_DEPTH = 24 };
 
-struct Slot { void* p; unsigned long seq; size_t size; };
+struct Slot { void* p; unsigned long seq; size_t size; unsigned long req; };   // req: number of the request while armed (0: made while not armed)
 
 struct State {
   // gate
@@ -94,7 +94,7 @@ inline size_t tab_find(State& s, void* p) {   // slot index or cap
 inline size_t tab_put(State& s, void* p, unsigned long seq, size_t size) {
   size_t i = hash_ptr(p, s.cap);
   while (s.tab[i].p) i = (i + 1) & (s.cap - 1);
-  s.tab[i].p = p; s.tab[i].seq = seq; s.tab[i].size = size;
+  s.tab[i].p = p; s.tab[i].seq = seq; s.tab[i].size = size; s.tab[i].req = 0;
   ++s.used;
   return i;
 }
@@ -105,6 +105,7 @@ inline void tab_grow(State& s) {
   tab_init(s, oc ? oc * 2 : (size_t)1 << 16);
   for (size_t i = 0; i < oc; ++i) if (old[i].p) {
     size_t j = tab_put(s, old[i].p, old[i].seq, old[i].size);
+    s.tab[j].req = old[i].req;
     if (oldb) memcpy(s.bts + j * BT_DEPTH, oldb + i * BT_DEPTH, BT_DEPTH * sizeof(void*));
   }
   free(old); free(oldb);
@@ -133,6 +134,7 @@ inline void track(void* p, size_t n) {
   State& s = st();
   if (!s.tab || (s.used + 1) * 2 > s.cap) tab_grow(s);
   size_t i = tab_put(s, p, ++s.seq, n);
+  s.tab[i].req = s.armed ? s.count : 0;
   ++s.total_allocs;
   if (s.bt_enabled) {
     if (!s.bts) { s.bts = (void**)calloc(s.cap * BT_DEPTH, sizeof(void*)); if (!s.bts) abort(); }
@@ -232,7 +234,9 @@ inline void bt_on(bool on) { st().bt_enabled = on; }
 // scoped suspension of the gate for harness bookkeeping that allocates
 struct Pause { bool was; Pause() : was(st().armed) { st().armed = false; } ~Pause() { st().armed = was; } };
 
-struct LiveBlock { void* p; unsigned long seq; size_t size; void* bt[BT_DEPTH]; };
+struct LiveBlock { void* p; unsigned long seq; size_t size; unsigned long req; void* bt[BT_DEPTH]; };
+// is the block (p, seq) still live?
+inline bool still_live(void* p, unsigned long seq) { State& s = st(); size_t i = tab_find(s, p); return i != s.cap && s.tab[i].seq == seq; }
 
 // live blocks created after `since` (ordered by creation); storage is malloc'd by the caller's vector
 // *after* the scan so that the result does not contain itself
@@ -241,7 +245,7 @@ inline size_t live_since(unsigned long since, LiveBlock* out, size_t max_out) {
   size_t n = 0;
   for (size_t i = 0; i < s.cap; ++i) if (s.tab[i].p && s.tab[i].seq > since) {
     if (n < max_out) {
-      out[n].p = s.tab[i].p; out[n].seq = s.tab[i].seq; out[n].size = s.tab[i].size;
+      out[n].p = s.tab[i].p; out[n].seq = s.tab[i].seq; out[n].size = s.tab[i].size; out[n].req = s.tab[i].req;
       if (s.bts) memcpy(out[n].bt, s.bts + i * BT_DEPTH, sizeof out[n].bt); else memset(out[n].bt, 0, sizeof out[n].bt);
     }
     ++n;
@@ -357,22 +361,43 @@ inline std::string short_name(const std::string& full) {
   return t;
 }
 
+// does the frame belong to a function of the library under test (namespace Parma_Polyhedra_Library)?
 inline bool is_ppl_frame(const std::string& full) {
   if (full.find("Parma_Polyhedra_Library::") == std::string::npos) return false;
+  // the function's own qualified name (return type, arguments and template arguments removed) must be in the namespace
+  std::string own = full;
+  {
+    int depth = 0; size_t cut = std::string::npos;
+    for (size_t i = 0; i < own.size(); ++i) {
+      char c = own[i];
+      if (c == '<') ++depth; else if (c == '>') { if (depth > 0) --depth; }
+      else if (c == '(' && depth == 0) { if (own.compare(i, 21, "(anonymous namespace)") == 0) { i += 20; continue; } cut = i; break; }
+    }
+    if (cut != std::string::npos) own = own.substr(0, cut);
+    depth = 0; size_t sp = std::string::npos;
+    for (size_t i = 0; i < own.size(); ++i) {
+      char c = own[i];
+      if (c == '<') ++depth; else if (c == '>') { if (depth > 0) --depth; }
+      else if (c == ' ' && depth == 0 && own.compare(i + 1, 8, "operator") != 0) sp = i;
+    }
+    if (sp != std::string::npos && own.find("operator") == std::string::npos) own = own.substr(sp + 1);
+  }
+  if (own.compare(0, 25, "Parma_Polyhedra_Library::") != 0) return false;
   // allocator-ish helpers that say nothing about who owns the block
   static const char* skip[] = { "Parma_Polyhedra_Library::Checked::", "Parma_Polyhedra_Library::Checked_Number",
                                 "Parma_Polyhedra_Library::Coefficient_traits", "Parma_Polyhedra_Library::Temp_",
                                 "Parma_Polyhedra_Library::Dirty_Temp", "Parma_Polyhedra_Library::assign_r",
                                 "Parma_Polyhedra_Library::Implementation::", 0 };
-  // the function name proper must start with the namespace (not merely mention it in an argument)
-  std::string sn = full;
-  for (int i = 0; skip[i]; ++i) if (sn.compare(0, strlen(skip[i]), skip[i]) == 0) return false;
-  size_t paren = sn.find('(');
-  size_t nsp = sn.find("Parma_Polyhedra_Library::");
-  if (paren != std::string::npos && nsp > paren) return false;
-  if (sn.compare(0, 5, "std::") == 0 || sn.compare(0, 11, "__gnu_cxx::") == 0) return false;
-  if (sn.compare(0, 5, "void ") == 0 && sn.compare(5, 5, "std::") == 0) return false;
+  for (int i = 0; skip[i]; ++i) if (own.compare(0, strlen(skip[i]), skip[i]) == 0) return false;
   return true;
+}
+// a frame of GMP (C code: cannot clean up when an allocation function throws) or of the C++ run-time library
+inline bool is_third_party_frame(const std::string& full) {
+  if (full.empty()) return false;
+  if (full.compare(0, 5, "__gmp") == 0 || full.compare(0, 4, "mpz_") == 0 || full.compare(0, 4, "mpq_") == 0 || full.compare(0, 4, "mpn_") == 0) return true;
+  if (full.find("Parma_Polyhedra_Library::") != std::string::npos || full.find("c14") != std::string::npos || full.find("vf::") != std::string::npos) return false;
+  if (full.compare(0, 5, "std::") == 0 || full.find(" std::") != std::string::npos || full.compare(0, 10, "operator<<") == 0 || full.compare(0, 10, "operator>>") == 0) return true;
+  return false;
 }
 
 // name of the innermost PPL function on the allocation stack of a block ("" when none)
